@@ -74,6 +74,19 @@ CHECKS = [
         "text": "For every configuration (exhaustive) and generated models/sensors/histories, the generated filter must satisfy ManagedFilter<>::compatible, all tick overloads and wrap() must compile, and each tick's result must be bit-identical to calling process_model / reading.sensor_model by hand in the prescribed order with the runtime's own step schedule. Exploration over programs; configurations exhaustive.",
         "note": "Compiled with g++ 12 against the stand-in; by-hand replay takes the runtime's reported step schedule (its validity is C10).",
     },
+    {
+        "property_id": "C09",
+        "technique": "property-based testing over operation sequences (Hypothesis-drawn histories of predict / predict-back / update, shrunk as one value) with a covariance-validity invariant after every step",
+        "text": "Generated histories of up to 60 filter steps on Euler-form models, exactly-correlated (singular-Jacobian) templates and the project's mass/z/v/a example, from SPD and exactly rank-deficient initial covariances; after every step the filter must not have refused the covariance and the returned covariance must be symmetric and PSD relative to its magnitude. Exploration.",
+        "note": "Histories are drawn as operation lists (equivalent to a rule-based machine with one filter per run, but directly replayable); noise and eigenvalue ranges bounded; numpy eigvalsh decides PSD; invariant is strictly inside what the filter's own gate admits.",
+    },
+    {
+        "property_id": "C13",
+        "cpp": True,
+        "technique": "metamorphic property-based testing (Hypothesis): bijective renaming + re-declaration twins in Python and compiled C++, plus an API-level binding check of every named container",
+        "text": "Named containers are driven with generated subsets of named values (binding, defaults, unknown-name and wrong-shape rejection); every generated definition is compared with a twin whose symbols and readings are renamed to fresh adversarially-sorting identifiers, re-declared in another order and container, requiring identical named outputs from the Python filter and from the compiled generated C++. Exploration; C++ twins sampled.",
+        "note": "Twins compared with each other at rounding-level tolerance; identifier-safe target names; sensor keys are not renamed.",
+    },
 ]
 
 _PENDING = "check not built yet in this revision of /verif (planned in DESIGN.md section 6)"
